@@ -32,6 +32,7 @@ import Reamber.Lemmas.SMTies
 import Reamber.Lemmas.SMTol
 import Reamber.Lemmas.SMChanges
 import Reamber.Lemmas.SMGridCompat
+import Reamber.Lemmas.SMLip
 import Mathlib.Tactic.NormNum
 import Reamber.Generated.SMTables
 import Mathlib.Tactic.Ring
@@ -1128,6 +1129,42 @@ theorem written_time_tolerance (offsetSec : Rat) (bpms : List (Rat × Rat)) (w b
     refine ⟨mul_nonneg (by linarith) (le_of_lt hbl), fun _ => ?_⟩
     have : (b - w) * beatLen (activeAux c rest (snapOfBeat w)).bpm <
         1 / 96 * beatLen (activeAux c rest (snapOfBeat w)).bpm := mul_lt_mul_of_pos_right hlt hbl
+    linarith
+
+/-- **`written_time_lipschitz` — times, across tempo changes.**  For a `#BPMS` list with a first entry on beat 0 and
+positive tempos (entries on one beat allowed) and any bound `M` of the beat lengths of its entries: time is a monotone
+function of the beat and grows by at most `M` per beat — for beats `0 ≤ w ≤ b`, whatever tempo changes lie between
+them, `0 ≤ time b − time w ≤ (b − w)·M`; in particular a row less than 1/96 beat before its object
+(`written_beat_tolerance`) is less than `M/96` ms before it.  (`written_time_tolerance` is the sharper statement with the
+beat length in force when no change separates the two; the check uses the longest beat length *between* row and
+object, which lies between the two statements and is not a theorem.) -/
+theorem written_time_lipschitz (offsetSec : Rat) (bpms : List (Rat × Rat)) (M w b : Rat)
+    (hok : tempoOkWeak bpms = true) (hM : ∀ p ∈ bpms, beatLen p.2 ≤ M) (hw : 0 ≤ w) (hwb : w ≤ b) :
+    0 ≤ timeOfBeat offsetSec bpms b - timeOfBeat offsetSec bpms w ∧
+    timeOfBeat offsetSec bpms b - timeOfBeat offsetSec bpms w ≤ (b - w) * M ∧
+    (b - w < 1 / 96 → timeOfBeat offsetSec bpms b - timeOfBeat offsetSec bpms w < M / 96) := by
+  have hsorted := isort_pairs_sorted bpms
+  have hperm := Reamber.Analysis.isort_perm (fun a b : Rat × Rat => decide (a.1 ≤ b.1)) bpms
+  unfold tempoOkWeak at hok
+  simp only [Bool.and_eq_true] at hok
+  obtain ⟨hhead, hpos⟩ := hok
+  unfold timeOfBeat
+  rw [changesOf_eq]
+  generalize isort (fun a b : Rat × Rat => decide (a.1 ≤ b.1)) bpms = s at hsorted hperm hhead hpos
+  cases s with
+  | nil => simp at hhead
+  | cons p l =>
+    have hp0 : p.1 = 0 := by simpa using hhead
+    have hpos' : ∀ q ∈ p :: l, 0 < q.2 := by
+      intro q hq
+      have := (List.all_eq_true.mp hpos) q hq
+      simpa using this
+    have hM' : ∀ q ∈ p :: l, beatLen q.2 ≤ M := fun q hq => hM q (hperm.mem_iff.mp hq)
+    obtain ⟨h1, h2⟩ := timeAtAux_lipschitz M (-(1000 * offsetSec)) p l w b hsorted hpos' hM' (by rw [hp0]; exact hw) hwb
+    simp only [List.map_cons, timeAt]
+    refine ⟨h1, h2, fun hlt => ?_⟩
+    have hMpos : 0 < M := lt_of_lt_of_le (SM.beatLen_pos (hpos' p (by simp))) (hM' p (by simp))
+    have : (b - w) * M < 1 / 96 * M := mul_lt_mul_of_pos_right hlt hMpos
     linarith
 
 /-- non-vacuity: an object at beat 5/9 in a measure with denominators 128, 36, 20 is written in row 53 of 384 (beat
